@@ -401,7 +401,7 @@ theorem stepSetErr_desc {a : AEnv} {env : Env} (h : Desc a env) (e : Option Nat)
     have := DescS_putEP h.slots e [] hok env.lib ep'
     exact Desc_of h (by simp [putEP_lib']) (by rcases e with _ | i <;> rfl) this
 
-theorem threadRun_inited (l : LibO) (t : Option TlsO) (b : Bool) :
+theorem threadRun_inited (l : LibO) (t : Option TlsO) (b : ThrOpt) :
     Always (threadRun l t b) (fun r => r.2.1.inited = l.inited) := by
   unfold threadRun
   apply Always.bind; intro a
@@ -413,7 +413,7 @@ theorem threadRun_inited (l : LibO) (t : Option TlsO) (b : Bool) :
       exact Always.pure rfl
   · exact Always.pure rfl
 
-theorem stepThread_desc {a : AEnv} {env : Env} (h : Desc a env) (d : Nat) (body : Bool) (key : Option Nat)
+theorem stepThread_desc {a : AEnv} {env : Env} (h : Desc a env) (d : Nat) (body : ThrOpt) (key : Option Nat)
     (hd : a.slots[d]? = some none) (hin : a.inited = true) :
     Always (stepThread env d body key) (fun r => Desc { a with slots := a.slots.set d (some .thread) } r.2) := by
   have hskip : Desc { a with slots := a.slots.set d (some .thread) } env :=
